@@ -696,6 +696,11 @@ func c14RangeLookup(c *Ctx) {
 			continue
 		}
 		loops := naturalLoops(f)
+		if why, applies := c.rangeLookupSearchShape(f); applies {
+			n++
+			c.R.Check(rule, c.P.FuncKey(f), c.P.Pos(f.Pos()), why == "", "the range-table lookup behind the identifier classes must be an inclusive pair search: "+why)
+			continue
+		}
 		if len(loops) != 1 {
 			continue
 		}
